@@ -1,2 +1,1141 @@
-//! C10 — stub (being written)
-fn main() {}
+//! C10 — accepted DIDs / DID URLs are canonical, decomposable, free of stray parts.
+//!
+//! (a) E1 full product: every string `did:m:` ‖ Σ^≤n (Σ = 16 symbols incl. `%`, delimiters, whitespace,
+//!     control, non-ASCII) through `CoreDID::{parse, from_str, try_from(&str|String|BaseDIDUrl), deserialize}`
+//!     and `DIDUrl::{parse, from_str, try_from(String), deserialize}`; oracle = hand-written recogniser of the
+//!     W3C DID / DID-URL ABNF (did-core §3.1, §3.2; RFC 3986 pchar/query/fragment).
+//! (b) the same tree (one level shallower) behind leading whitespace/control prefixes and behind perturbed
+//!     scheme/method heads; (c) structured long identifiers × suffix table.
+//! (d) op table: every well-formed base value × {join, set_path, set_query, set_fragment} × segment
+//!     ({∅,/,?,#} ‖ Σ^≤k) and {set_method_name, set_method_id} × Σ^≤k.
+//! (e) Eq/Ord/Hash agreement on all pairs (and all triples) of a pool of accepted DID URLs.
+//! (f) did:jwk: every single-character substitution/truncation of encoded JWK ids + suffix table.
+
+use identity_core::common::Url;
+use identity_did::{BaseDIDUrl, CoreDID, DIDJwk, DIDUrl, DID};
+use serde::{Deserialize, Serialize};
+use std::cmp::Ordering;
+use std::collections::hash_map::DefaultHasher;
+use std::collections::BTreeMap;
+use std::hash::{Hash, Hasher};
+use std::str::FromStr;
+use vx::rayon::prelude::*;
+use vx::{guard, json, Ctx, Level, Panicked};
+
+// ------------------------------------------------------------------------------------------------ cases
+
+#[derive(Serialize, Deserialize, Debug, Clone, PartialEq)]
+enum Op {
+  Join,
+  SetPath,
+  SetQuery,
+  SetFragment,
+  SetMethodName,
+  SetMethodId,
+}
+
+#[derive(Serialize, Deserialize, Debug, Clone, PartialEq)]
+enum Case {
+  /// one input string through every parsing entry point of CoreDID and DIDUrl
+  Parse { s: String },
+  /// `base` (a well-formed DID URL / DID) parsed, then `op(arg)`; `arg == None` only for set_path/query/fragment
+  Op { base: String, op: Op, arg: Option<String> },
+  Pair { a: String, b: String },
+  Triple { a: String, b: String, c: String },
+  /// one input string through `DIDJwk::parse` (+ serde) and `jwk()`
+  Jwk { s: String },
+}
+
+/// Per-worker accumulator (the hot loops must not take the context's mutexes per case).
+#[derive(Default)]
+struct Local {
+  outcomes: BTreeMap<String, u64>,
+  distinct: Vec<u64>,
+  evals: u64,
+}
+impl Local {
+  fn outcome(&mut self, l: impl Into<String>) {
+    *self.outcomes.entry(l.into()).or_insert(0) += 1;
+  }
+  fn distinct<K: Hash>(&mut self, k: &K) {
+    self.distinct.push(Ctx::hash_of(k));
+  }
+  fn merge(self, ctx: &Ctx) {
+    ctx.outcomes_merge(&self.outcomes);
+    ctx.distinct_many(self.distinct);
+    ctx.add_evals(self.evals);
+  }
+}
+
+// ------------------------------------------------------------------------------------------------ reference recogniser
+// Written from did-core §3.1/§3.2 and RFC 3986 §3.3–3.5, not from the implementation.
+//   did                = "did:" method-name ":" method-specific-id
+//   method-name        = 1*method-char            method-char = %x61-7A / DIGIT
+//   method-specific-id = *( *idchar ":" ) 1*idchar
+//   idchar             = ALPHA / DIGIT / "." / "-" / "_" / pct-encoded
+//   pct-encoded        = "%" HEXDIG HEXDIG
+//   did-url            = did path-abempty [ "?" query ] [ "#" fragment ]
+//   path-abempty = *( "/" *pchar )   query = fragment = *( pchar / "/" / "?" )
+//   pchar = unreserved / pct-encoded / sub-delims / ":" / "@"
+
+#[derive(Debug, Clone, PartialEq)]
+struct Parts<'a> {
+  method: &'a str,
+  msid: &'a str,
+  path: &'a str,
+  query: Option<&'a str>,
+  fragment: Option<&'a str>,
+}
+
+fn unreserved(c: u8) -> bool {
+  c.is_ascii_alphanumeric() || matches!(c, b'-' | b'.' | b'_' | b'~')
+}
+fn sub_delim(c: u8) -> bool {
+  matches!(c, b'!' | b'$' | b'&' | b'\'' | b'(' | b')' | b'*' | b'+' | b',' | b';' | b'=')
+}
+fn pchar(c: u8) -> bool {
+  unreserved(c) || sub_delim(c) || c == b':' || c == b'@'
+}
+fn c_msid(c: u8) -> bool {
+  c.is_ascii_alphanumeric() || matches!(c, b'.' | b'-' | b'_' | b':')
+}
+fn c_path(c: u8) -> bool {
+  pchar(c) || c == b'/'
+}
+fn c_query(c: u8) -> bool {
+  pchar(c) || c == b'/' || c == b'?'
+}
+
+/// Every byte of `comp` satisfies `ok` or starts a `%HH` triplet.
+fn scan(comp: &str, ok: fn(u8) -> bool, bad: &'static str) -> Result<(), &'static str> {
+  let b = comp.as_bytes();
+  let mut i = 0;
+  while i < b.len() {
+    if b[i] == b'%' {
+      if !(i + 2 < b.len() && b[i + 1].is_ascii_hexdigit() && b[i + 2].is_ascii_hexdigit()) {
+        return Err("invalid-pct-encoding");
+      }
+      i += 3;
+    } else if ok(b[i]) {
+      i += 1;
+    } else {
+      return Err(bad);
+    }
+  }
+  Ok(())
+}
+
+fn ws_or_ctl(c: char) -> bool {
+  c.is_whitespace() || c.is_control()
+}
+
+/// "did:" method-name ":" method-specific-id, then whatever follows the first of `/ ? #`.
+/// `Err(class)` names the first clause of the grammar that fails.
+fn classify_head(s: &str) -> Result<(&str, &str, &str), &'static str> {
+  if s.chars().next().map(ws_or_ctl).unwrap_or(false) {
+    return Err("leading-whitespace");
+  }
+  if s.chars().last().map(ws_or_ctl).unwrap_or(false) {
+    return Err("trailing-whitespace");
+  }
+  let rest = s.strip_prefix("did:").ok_or("bad-scheme")?;
+  let colon = rest.find(':').ok_or("missing-method-id")?;
+  let method = &rest[..colon];
+  if method.is_empty() {
+    return Err("empty-method-name");
+  }
+  if !method.bytes().all(|c| c.is_ascii_lowercase() || c.is_ascii_digit()) {
+    return Err("invalid-method-name");
+  }
+  let rest = &rest[colon + 1..];
+  let end = rest.find(['/', '?', '#']).unwrap_or(rest.len());
+  let msid = &rest[..end];
+  if msid.is_empty() {
+    return Err("empty-method-id");
+  }
+  scan(msid, c_msid, "invalid-method-id-char")?;
+  if msid.ends_with(':') {
+    return Err("trailing-colon");
+  }
+  Ok((method, msid, &rest[end..]))
+}
+
+/// Recognise `s` as a DID URL.
+fn classify_url(s: &str) -> Result<Parts<'_>, &'static str> {
+  let (method, msid, tail) = classify_head(s)?;
+  let (before_frag, fragment) = match tail.find('#') {
+    Some(i) => (&tail[..i], Some(&tail[i + 1..])),
+    None => (tail, None),
+  };
+  let (path, query) = match before_frag.find('?') {
+    Some(i) => (&before_frag[..i], Some(&before_frag[i + 1..])),
+    None => (before_frag, None),
+  };
+  scan(path, c_path, "invalid-path-char")?;
+  if let Some(q) = query {
+    scan(q, c_query, "invalid-query-char")?;
+  }
+  if let Some(f) = fragment {
+    scan(f, c_query, "invalid-fragment-char")?;
+  }
+  Ok(Parts { method, msid, path, query, fragment })
+}
+
+/// Recognise `s` as a plain DID: nothing may follow the method-specific-id.
+fn classify_did(s: &str) -> Result<Parts<'_>, &'static str> {
+  let (method, msid, tail) = classify_head(s)?;
+  if !tail.is_empty() {
+    return Err("has-path-query-or-fragment");
+  }
+  Ok(Parts { method, msid, path: "", query: None, fragment: None })
+}
+
+/// A `%HH` triplet directly followed by a component delimiter (the shape `did_url_parser` mis-reads).
+fn pct_before_delimiter(s: &str) -> bool {
+  let b = s.as_bytes();
+  (0..b.len()).any(|i| b[i] == b'%' && i + 3 < b.len() && matches!(b[i + 3], b'/' | b'?' | b'#'))
+}
+
+/// Why a well-formed string produced by the library itself might be refused by its parser.
+fn own_form_class(s: &str) -> &'static str {
+  if pct_before_delimiter(s) {
+    "pct-encoded-before-delimiter"
+  } else if classify_url(s).ok().and_then(|p| p.query).map(|q| q.starts_with('?')).unwrap_or(false) {
+    "query-begins-with-question-mark"
+  } else {
+    "other"
+  }
+}
+
+// ------------------------------------------------------------------------------------------------ helpers
+
+/// Canonical key part for a panic: file + message up to the first quote (the rest quotes the input).
+fn pkey(p: &Panicked) -> String {
+  let file = p.loc.rsplit_once(':').map(|(f, _)| f).unwrap_or(&p.loc);
+  let head = p.msg.split(['`', '"', '\'']).next().unwrap_or("");
+  let mut m: String = head.chars().map(|c| if c.is_ascii_digit() { '#' } else { c }).collect();
+  while m.contains("##") {
+    m = m.replace("##", "#");
+  }
+  let m: String = m.trim().chars().take(48).collect();
+  format!("panic@{file}:{m}")
+}
+
+fn hash_of<T: Hash>(t: &T) -> u64 {
+  let mut h = DefaultHasher::new();
+  t.hash(&mut h);
+  h.finish()
+}
+
+/// Outcome of one entry point reduced to what is compared between entry points.
+#[derive(Debug, Clone, PartialEq)]
+enum Sig {
+  Ok(String),
+  Err(&'static str),
+  Panic(String),
+}
+impl Sig {
+  fn label(&self) -> String {
+    match self {
+      Sig::Ok(_) => "Ok".into(),
+      Sig::Err(e) => format!("Err({e})"),
+      Sig::Panic(_) => "PANIC".into(),
+    }
+  }
+}
+fn sig_of<T: ToString>(r: &Result<Result<T, identity_did::Error>, Panicked>) -> Sig {
+  match r {
+    Ok(Ok(v)) => match guard(|| v.to_string()) {
+      Ok(s) => Sig::Ok(s),
+      Err(p) => Sig::Panic(pkey(&p)),
+    },
+    Ok(Err(e)) => Sig::Err(e.into()),
+    Err(p) => Sig::Panic(pkey(p)),
+  }
+}
+fn sig_serde<T: ToString>(r: &Result<Result<T, serde_json::Error>, Panicked>) -> Sig {
+  match r {
+    Ok(Ok(v)) => match guard(|| v.to_string()) {
+      Ok(s) => Sig::Ok(s),
+      Err(p) => Sig::Panic(pkey(&p)),
+    },
+    Ok(Err(_)) => Sig::Err("serde"),
+    Err(p) => Sig::Panic(pkey(p)),
+  }
+}
+/// Same accept/reject/panic decision and same string form (error variants are not compared).
+fn same_decision(a: &Sig, b: &Sig) -> bool {
+  match (a, b) {
+    (Sig::Ok(x), Sig::Ok(y)) => x == y,
+    (Sig::Err(_), Sig::Err(_)) => true,
+    (Sig::Panic(x), Sig::Panic(y)) => x == y,
+    _ => false,
+  }
+}
+
+// ------------------------------------------------------------------------------------------------ judges
+
+/// Judge one accepted plain-DID value obtained from input `s` through entry point `entry`.
+/// Returns true iff the value is clean. Exactly one key per case and entry point.
+fn judge_did(ctx: &Ctx, entry: &str, s: &str, d: &CoreDID, case: &Case) -> bool {
+  let comps = guard(|| (d.scheme().to_owned(), d.method().to_owned(), d.method_id().to_owned(), d.authority().to_owned()));
+  let parts = match classify_did(s) {
+    Ok(p) => p,
+    Err(class) => {
+      ctx.violation(
+        &format!("{entry}|accepted|{class}"),
+        &format!("input {s:?} is not a DID ({class}) but was accepted; string form {:?}, (scheme, method, method_id, authority) read {:?}", d.as_str(), comps.as_ref().ok()),
+        case,
+      );
+      return false;
+    }
+  };
+  let forms = guard(|| {
+    (
+      d.as_str().to_owned(),
+      d.to_string(),
+      String::from(d.clone()),
+      d.clone().into_string(),
+      <CoreDID as AsRef<str>>::as_ref(d).to_owned(),
+      serde_json::to_value(d).ok(),
+    )
+  });
+  match forms {
+    Err(p) => {
+      ctx.violation(&format!("{entry}|string-form|{}", pkey(&p)), &format!("input {s:?}: {}", p.msg), case);
+      return false;
+    }
+    Ok(f) => {
+      if f.0 != s || f.1 != s || f.2 != s || f.3 != s || f.4 != s || f.5 != Some(json!(s)) {
+        ctx.violation(&format!("{entry}|string-form-not-verbatim|well-formed-did"), &format!("input {s:?}, string forms {f:?}"), case);
+        return false;
+      }
+    }
+  }
+  match comps {
+    Err(p) => {
+      ctx.violation(&format!("{entry}|accessor|{}", pkey(&p)), &format!("input {s:?}: {}", p.msg), case);
+      false
+    }
+    Ok((scheme, method, method_id, authority)) => {
+      let ok = scheme == "did"
+        && method == parts.method
+        && method_id == parts.msid
+        && authority == format!("{}:{}", parts.method, parts.msid)
+        && format!("did:{method}:{method_id}") == s;
+      if !ok {
+        ctx.violation(
+          &format!("{entry}|components-do-not-recompose"),
+          &format!("input {s:?}: scheme {scheme:?} method {method:?} method_id {method_id:?} authority {authority:?}"),
+          case,
+        );
+      }
+      ok
+    }
+  }
+}
+
+/// Judge one accepted DID URL obtained from input `s` through `entry`.
+fn judge_url(ctx: &Ctx, entry: &str, s: &str, u: &DIDUrl, case: &Case) -> bool {
+  let parts = match classify_url(s) {
+    Ok(p) => p,
+    Err(class) => {
+      let shown = guard(|| u.to_string());
+      ctx.violation(
+        &format!("{entry}|accepted|{class}"),
+        &format!("input {s:?} is not a DID URL ({class}) but was accepted; string form {:?}", shown.ok()),
+        case,
+      );
+      return false;
+    }
+  };
+  let forms = guard(|| (u.to_string(), String::from(u.clone()), serde_json::to_value(u).ok()));
+  match forms {
+    Err(p) => {
+      ctx.violation(&format!("{entry}|string-form|{}", pkey(&p)), &format!("input {s:?}: {}", p.msg), case);
+      return false;
+    }
+    Ok(f) => {
+      if f.0 != s || f.1 != s || f.2 != Some(json!(s)) {
+        let class = if pct_before_delimiter(s) {
+          "pct-encoded-before-delimiter"
+        } else if parts.query == Some("") {
+          "empty-query"
+        } else if parts.fragment == Some("") {
+          "empty-fragment"
+        } else if parts.query.map(|q| q.starts_with('?')).unwrap_or(false) {
+          "query-begins-with-question-mark"
+        } else {
+          "other"
+        };
+        ctx.violation(&format!("{entry}|string-form-not-verbatim|{class}"), &format!("input {s:?} (a well-formed DID URL) accepted, string forms {f:?}"), case);
+        return false;
+      }
+    }
+  }
+  let comps = guard(|| {
+    (
+      u.did().as_str().to_owned(),
+      u.did().method().to_owned(),
+      u.did().method_id().to_owned(),
+      u.path().map(str::to_owned),
+      u.query().map(str::to_owned),
+      u.fragment().map(str::to_owned),
+      u.url().to_string(),
+      u.url().is_empty(),
+    )
+  });
+  let (did, method, method_id, path, query, fragment, rel, rel_empty) = match comps {
+    Err(p) => {
+      ctx.violation(&format!("{entry}|accessor|{}", pkey(&p)), &format!("input {s:?}: {}", p.msg), case);
+      return false;
+    }
+    Ok(c) => c,
+  };
+  let mut cat = did.clone();
+  cat.push_str(path.as_deref().unwrap_or(""));
+  if let Some(q) = &query {
+    cat.push('?');
+    cat.push_str(q);
+  }
+  if let Some(f) = &fragment {
+    cat.push('#');
+    cat.push_str(f);
+  }
+  if cat != s || format!("did:{method}:{method_id}") != did || format!("{did}{rel}") != s || rel_empty != (rel.is_empty()) {
+    ctx.violation(
+      &format!("{entry}|components-do-not-recompose"),
+      &format!("input {s:?}: did {did:?} method {method:?} method_id {method_id:?} path {path:?} query {query:?} fragment {fragment:?} relative {rel:?}"),
+      case,
+    );
+    return false;
+  }
+  // each component in its ABNF class
+  let bad = if classify_did(&did).is_err() {
+    Some("did")
+  } else if path.as_deref().map(|p| !p.starts_with('/') || scan(p, c_path, "x").is_err()).unwrap_or(false) {
+    Some("path")
+  } else if query.as_deref().map(|q| scan(q, c_query, "x").is_err()).unwrap_or(false) {
+    Some("query")
+  } else if fragment.as_deref().map(|f| scan(f, c_query, "x").is_err()).unwrap_or(false) {
+    Some("fragment")
+  } else {
+    None
+  };
+  if let Some(which) = bad {
+    ctx.violation(&format!("{entry}|component-outside-abnf|{which}"), &format!("input {s:?}: did {did:?} path {path:?} query {query:?} fragment {fragment:?}"), case);
+    return false;
+  }
+  // conversions of a clean value must not unwind
+  if let Err(p) = guard(|| Url::from(u.clone())) {
+    ctx.violation(&format!("DIDUrl->Url|{}", pkey(&p)), &format!("input {s:?}: {}", p.msg), case);
+    return false;
+  }
+  true
+}
+
+fn eval_parse(ctx: &Ctx, s: &str, l: &mut Local) {
+  l.evals += 1;
+  let case = Case::Parse { s: s.to_owned() };
+  // ---- plain DID type
+  let r_parse = guard(|| CoreDID::parse(s));
+  let sp = sig_of(&r_parse);
+  if let Sig::Panic(k) = &sp {
+    ctx.violation(&format!("CoreDID::parse|{k}"), &format!("input {s:?}: {}", r_parse.as_ref().err().map(|p| p.msg.as_str()).unwrap_or("string form panicked")), &case);
+  }
+  if let Ok(Ok(d)) = &r_parse {
+    if judge_did(ctx, "CoreDID::parse", s, d, &case) {
+      // conversions of a clean DID
+      let conv = guard(|| (d.to_url().to_string(), d.clone().into_url().to_string(), DIDUrl::from(d.clone()).to_string(), CoreDID::check_validity(&BaseDIDUrl::from(d.clone())).is_ok()));
+      match conv {
+        Err(p) => ctx.violation(&format!("CoreDID::to_url|{}", pkey(&p)), &format!("input {s:?}: {}", p.msg), &case),
+        Ok((a, b, c, valid)) => {
+          if a != s || b != s || c != s {
+            ctx.violation("CoreDID::to_url|string-form-differs", &format!("input {s:?}: {a:?} {b:?} {c:?}"), &case);
+          }
+          if !valid {
+            // check_validity is the library's own predicate; it must not contradict an accepted clean DID
+            l.outcome("note:check_validity-rejects-clean-did");
+          }
+        }
+      }
+    }
+  }
+  // delegating entry points must decide like parse
+  let others: [(&str, Sig); 3] = [
+    ("CoreDID::from_str", sig_of(&guard(|| CoreDID::from_str(s)))),
+    ("CoreDID::try_from(&str)", sig_of(&guard(|| CoreDID::try_from(s)))),
+    ("CoreDID::try_from(String)", sig_of(&guard(|| CoreDID::try_from(s.to_owned())))),
+  ];
+  for (name, sig) in &others {
+    if !same_decision(sig, &sp) {
+      ctx.violation(&format!("{name}|differs-from-parse"), &format!("input {s:?}: parse {sp:?}, {name} {sig:?}"), &case);
+    }
+  }
+  // serde / TryFrom<BaseDIDUrl>: a separate code path, judged on its own
+  let r_de = guard(|| serde_json::from_value::<CoreDID>(json!(s)));
+  let sd = sig_serde(&r_de);
+  if let Sig::Panic(k) = &sd {
+    ctx.violation(&format!("CoreDID::deserialize|{k}"), &format!("input {s:?}"), &case);
+  }
+  if let Ok(Ok(d)) = &r_de {
+    judge_did(ctx, "CoreDID::deserialize", s, d, &case);
+  }
+  let r_base = guard(|| BaseDIDUrl::parse(s).map_err(identity_did::Error::from).and_then(CoreDID::try_from));
+  let sb = sig_of(&r_base);
+  if !same_decision(&sb, &sd) {
+    ctx.violation("CoreDID::try_from(BaseDIDUrl)|differs-from-deserialize", &format!("input {s:?}: deserialize {sd:?}, try_from {sb:?}"), &case);
+  }
+  // ---- DID URL type
+  let r_url = guard(|| DIDUrl::parse(s));
+  let su = sig_of(&r_url);
+  if let Sig::Panic(k) = &su {
+    ctx.violation(&format!("DIDUrl::parse|{k}"), &format!("input {s:?}: {}", r_url.as_ref().err().map(|p| p.msg.as_str()).unwrap_or("string form panicked")), &case);
+  }
+  if let Ok(Ok(u)) = &r_url {
+    judge_url(ctx, "DIDUrl::parse", s, u, &case);
+  }
+  let others: [(&str, Sig); 3] = [
+    ("DIDUrl::from_str", sig_of(&guard(|| DIDUrl::from_str(s)))),
+    ("DIDUrl::try_from(String)", sig_of(&guard(|| DIDUrl::try_from(s.to_owned())))),
+    ("DIDUrl::deserialize", sig_serde(&guard(|| serde_json::from_value::<DIDUrl>(json!(s))))),
+  ];
+  for (name, sig) in &others {
+    if !same_decision(sig, &su) {
+      ctx.violation(&format!("{name}|differs-from-parse"), &format!("input {s:?}: parse {su:?}, {name} {sig:?}"), &case);
+    }
+  }
+  // ---- histogram (liveness is recorded, not judged)
+  let recog = match (classify_did(s), classify_url(s)) {
+    (Ok(_), _) => "did",
+    (Err(_), Ok(_)) => "did-url",
+    (Err(_), Err(_)) => "neither",
+  };
+  l.outcome(format!("parse: grammar={recog} CoreDID={} deserialize={} DIDUrl={}", sp.label(), sd.label(), su.label()));
+  let trivial = recog == "neither" && matches!(sp, Sig::Err(_)) && matches!(sd, Sig::Err(_)) && matches!(su, Sig::Err(_));
+  if !trivial {
+    l.distinct(&(1u8, s));
+  }
+}
+
+fn apply_url_op(u: &mut DIDUrl, op: &Op, arg: Option<&str>) -> Result<Option<DIDUrl>, identity_did::Error> {
+  match op {
+    Op::Join => u.join(arg.unwrap_or("")).map(Some),
+    Op::SetPath => u.set_path(arg).map(|_| None),
+    Op::SetQuery => u.set_query(arg).map(|_| None),
+    Op::SetFragment => u.set_fragment(arg).map(|_| None),
+    _ => unreachable!("not a DIDUrl op"),
+  }
+}
+
+fn eval_op(ctx: &Ctx, base: &str, op: &Op, arg: Option<&str>, l: &mut Local) {
+  l.evals += 1;
+  let case = Case::Op { base: base.to_owned(), op: op.clone(), arg: arg.map(str::to_owned) };
+  let is_did_op = matches!(op, Op::SetMethodName | Op::SetMethodId);
+  let name = match op {
+    Op::Join => "DIDUrl::join",
+    Op::SetPath => "DIDUrl::set_path",
+    Op::SetQuery => "DIDUrl::set_query",
+    Op::SetFragment => "DIDUrl::set_fragment",
+    Op::SetMethodName => "CoreDID::set_method_name",
+    Op::SetMethodId => "CoreDID::set_method_id",
+  };
+  // The base must be a well-formed value accepted by the parser, otherwise the case judges nothing
+  // (ill-formed accepted values are reported by the Parse cases; judging ops on them would cascade).
+  let well_formed = if is_did_op { classify_did(base).is_ok() } else { classify_url(base).is_ok() };
+  if !well_formed {
+    l.outcome(format!("op {name}: base not well-formed (not judged)"));
+    return;
+  }
+  if is_did_op {
+    let Ok(Ok(mut d)) = guard(|| CoreDID::parse(base)) else {
+      l.outcome(format!("op {name}: base rejected by parse (not judged)"));
+      return;
+    };
+    let before = d.clone();
+    let a = arg.unwrap_or("");
+    let r = guard(|| if *op == Op::SetMethodName { d.set_method_name(a) } else { d.set_method_id(a) });
+    match r {
+      Err(p) => ctx.violation(&format!("{name}|{}", pkey(&p)), &format!("{base:?}.{name}({a:?}): {}", p.msg), &case),
+      Ok(Err(_)) => {
+        if d != before || d.as_str() != before.as_str() {
+          ctx.violation(&format!("{name}|rejected|value-changed"), &format!("{base:?}.{name}({a:?}) returned Err and left {:?}", d.as_str()), &case);
+        }
+        l.outcome(format!("op {name}: rejected"));
+      }
+      Ok(Ok(())) => {
+        let out = d.as_str().to_owned();
+        match guard(|| CoreDID::parse(&out)) {
+          Err(p) => {
+            ctx.violation(&format!("CoreDID::parse|{}", pkey(&p)), &format!("string form {out:?} of the value produced by {base:?}.{name}({a:?}): {}", p.msg), &case);
+            l.outcome(format!("op {name}: accepted, reparse PANIC"));
+          }
+          Ok(Err(e)) => {
+            match classify_did(&out) {
+              Err(class) => ctx.violation(
+                &format!("{name}|accepted|{class}"),
+                &format!("{base:?}.{name}({a:?}) returned Ok; the value {out:?} is not a DID ({class}) and does not re-parse ({e})"),
+                &case,
+              ),
+              Ok(_) => ctx.violation(
+                &format!("CoreDID::parse|rejects-own-string-form|{}", own_form_class(&out)),
+                &format!("{base:?}.{name}({a:?}) returned Ok; the well-formed value {out:?} does not re-parse ({e})"),
+                &case,
+              ),
+            }
+            l.outcome(format!("op {name}: accepted, reparse rejected"));
+          }
+          Ok(Ok(back)) => {
+            let comps_ok = guard(|| (back.method() == d.method()) && (back.method_id() == d.method_id()) && back.as_str() == out).unwrap_or(false);
+            if back != d || !comps_ok || hash_of(&back) != hash_of(&d) || back.cmp(&d) != Ordering::Equal {
+              ctx.violation(&format!("{name}|accepted|reparses-to-different-value"), &format!("{base:?}.{name}({a:?}) -> {out:?}, re-parsed {:?}", back.as_str()), &case);
+            }
+            // the component that was set reads back as given
+            let got = guard(|| if *op == Op::SetMethodName { d.method().to_owned() } else { d.method_id().to_owned() });
+            if got.as_deref().ok() != Some(a) && classify_did(&out).is_ok() {
+              ctx.violation(&format!("{name}|accepted|component-reads-back-differently"), &format!("{base:?}.{name}({a:?}) -> {out:?}, accessor {got:?}"), &case);
+            }
+            l.outcome(format!("op {name}: accepted, reparses to itself"));
+          }
+        }
+        l.distinct(&(2u8, base, name, arg));
+      }
+    }
+    return;
+  }
+  let Ok(Ok(mut u)) = guard(|| DIDUrl::parse(base)) else {
+    l.outcome(format!("op {name}: base rejected by parse (not judged)"));
+    return;
+  };
+  let before = u.clone();
+  let before_s = before.to_string();
+  let r = guard(|| apply_url_op(&mut u, op, arg));
+  match r {
+    Err(p) => ctx.violation(&format!("{name}|{}", pkey(&p)), &format!("{base:?}.{name}({arg:?}): {}", p.msg), &case),
+    Ok(Err(_)) => {
+      if u != before || u.to_string() != before_s {
+        ctx.violation(&format!("{name}|rejected|value-changed"), &format!("{base:?}.{name}({arg:?}) returned Err and left {:?}", u.to_string()), &case);
+      }
+      l.outcome(format!("op {name}: rejected"));
+    }
+    Ok(Ok(joined)) => {
+      let v = joined.unwrap_or_else(|| u.clone());
+      if *op == Op::Join && (u != before || u.to_string() != before_s) {
+        ctx.violation("DIDUrl::join|receiver-changed", &format!("{base:?}.join({arg:?})"), &case);
+      }
+      let out = match guard(|| v.to_string()) {
+        Ok(o) => o,
+        Err(p) => return ctx.violation(&format!("{name}|string-form|{}", pkey(&p)), &p.msg, &case),
+      };
+      match guard(|| DIDUrl::parse(&out)) {
+        Err(p) => {
+          ctx.violation(&format!("DIDUrl::parse|{}", pkey(&p)), &format!("string form {out:?} of the value produced by {base:?}.{name}({arg:?}): {}", p.msg), &case);
+          l.outcome(format!("op {name}: accepted, reparse PANIC"));
+        }
+        Ok(Err(e)) => {
+          match classify_url(&out) {
+            Err(class) => ctx.violation(
+              &format!("{name}|accepted|{class}"),
+              &format!("{base:?}.{name}({arg:?}) returned Ok; the value {out:?} is not a DID URL ({class}) and does not re-parse ({e})"),
+              &case,
+            ),
+            Ok(_) => ctx.violation(
+              &format!("DIDUrl::parse|rejects-own-string-form|{}", own_form_class(&out)),
+              &format!("{base:?}.{name}({arg:?}) returned Ok; the well-formed value {out:?} does not re-parse ({e})"),
+              &case,
+            ),
+          }
+          l.outcome(format!("op {name}: accepted, reparse rejected"));
+        }
+        Ok(Ok(back)) => {
+          // a defect of parse on this (library-produced) string is parse's, reported under its key
+          if classify_url(&out).is_ok() && !judge_url(ctx, "DIDUrl::parse", &out, &back, &case) {
+            l.outcome(format!("op {name}: accepted, reparse defective"));
+            l.distinct(&(2u8, base, name, arg));
+            return;
+          }
+          let same = back == v && v == back && back.to_string() == out && hash_of(&back) == hash_of(&v) && back.cmp(&v) == Ordering::Equal && back.path() == v.path() && back.query() == v.query() && back.fragment() == v.fragment();
+          if !same {
+            ctx.violation(&format!("{name}|accepted|reparses-to-different-value"), &format!("{base:?}.{name}({arg:?}) -> {out:?}, re-parsed {:?}", back.to_string()), &case);
+          }
+          if v.did() != before.did() {
+            ctx.violation(&format!("{name}|accepted|did-part-changed"), &format!("{base:?}.{name}({arg:?}) -> {out:?}"), &case);
+          }
+          l.outcome(format!("op {name}: accepted, reparses to itself"));
+        }
+      }
+      l.distinct(&(2u8, base, name, arg));
+    }
+  }
+}
+
+/// Relations between two values: (eq, cmp, partial_cmp consistent, hashes equal)
+fn eval_pair(ctx: &Ctx, a: &DIDUrl, b: &DIDUrl, case: impl Fn() -> Case, l: &mut Local) -> Ordering {
+  l.evals += 1;
+  let eq = a == b;
+  let ab = a.cmp(b);
+  let ba = b.cmp(a);
+  if eq != (b == a) {
+    ctx.violation("DIDUrl::eq|not-symmetric", "", &case());
+  }
+  if eq != (ab == Ordering::Equal) {
+    ctx.violation(if eq { "DIDUrl::cmp|equal-values-not-cmp-equal" } else { "DIDUrl::cmp|cmp-equal-for-unequal-values" }, &format!("{a} vs {b}: eq {eq}, cmp {ab:?}"), &case());
+  }
+  if ab != ba.reverse() {
+    ctx.violation("DIDUrl::cmp|not-antisymmetric", &format!("{a} vs {b}: {ab:?} / {ba:?}"), &case());
+  }
+  if a.partial_cmp(b) != Some(ab) {
+    ctx.violation("DIDUrl::partial_cmp|differs-from-cmp", &format!("{a} vs {b}"), &case());
+  }
+  if eq && hash_of(a) != hash_of(b) {
+    ctx.violation("DIDUrl::hash|equal-values-hash-differently", &format!("{a} vs {b}"), &case());
+  }
+  // two values parsed from well-formed strings are equal exactly when the strings are
+  if eq != (a.to_string() == b.to_string()) {
+    ctx.violation("DIDUrl::eq|disagrees-with-string-form", &format!("{a} vs {b}: eq {eq}"), &case());
+  }
+  l.outcome(match (eq, ab) {
+    (true, _) => "pair: equal",
+    (false, Ordering::Less) => "pair: less",
+    (false, _) => "pair: greater-or-cmp-equal",
+  });
+  ab
+}
+
+// ---- did:jwk
+fn b64url_decode(s: &str) -> Option<Vec<u8>> {
+  let mut acc: u32 = 0;
+  let mut bits = 0;
+  let mut out = Vec::new();
+  if s.len() % 4 == 1 {
+    return None;
+  }
+  for c in s.bytes() {
+    let v = match c {
+      b'A'..=b'Z' => c - b'A',
+      b'a'..=b'z' => c - b'a' + 26,
+      b'0'..=b'9' => c - b'0' + 52,
+      b'-' => 62,
+      b'_' => 63,
+      _ => return None,
+    } as u32;
+    acc = (acc << 6) | v;
+    bits += 6;
+    if bits >= 8 {
+      bits -= 8;
+      out.push((acc >> bits) as u8);
+      acc &= (1 << bits) - 1;
+    }
+  }
+  Some(out)
+}
+fn b64url_encode(data: &[u8]) -> String {
+  const T: &[u8; 64] = b"ABCDEFGHIJKLMNOPQRSTUVWXYZabcdefghijklmnopqrstuvwxyz0123456789-_";
+  let mut out = String::new();
+  for ch in data.chunks(3) {
+    let n = (ch[0] as u32) << 16 | (*ch.get(1).unwrap_or(&0) as u32) << 8 | *ch.get(2).unwrap_or(&0) as u32;
+    out.push(T[(n >> 18) as usize & 63] as char);
+    out.push(T[(n >> 12) as usize & 63] as char);
+    if ch.len() > 1 {
+      out.push(T[(n >> 6) as usize & 63] as char);
+    }
+    if ch.len() > 2 {
+      out.push(T[n as usize & 63] as char);
+    }
+  }
+  out
+}
+
+fn eval_jwk(ctx: &Ctx, s: &str, l: &mut Local) {
+  l.evals += 1;
+  let case = Case::Jwk { s: s.to_owned() };
+  let r = guard(|| DIDJwk::parse(s));
+  let sig = sig_of(&r);
+  let others: [(&str, Sig); 3] = [
+    ("DIDJwk::from_str", sig_of(&guard(|| DIDJwk::from_str(s)))),
+    ("DIDJwk::try_from(&str)", sig_of(&guard(|| DIDJwk::try_from(s)))),
+    ("DIDJwk::deserialize", sig_serde(&guard(|| serde_json::from_value::<DIDJwk>(json!(s))))),
+  ];
+  for (name, o) in &others {
+    if !same_decision(o, &sig) {
+      ctx.violation(&format!("{name}|differs-from-parse"), &format!("input {s:?}: parse {sig:?}, {name} {o:?}"), &case);
+    }
+  }
+  match r {
+    Err(p) => {
+      // the parse panic belongs to CoreDID::parse when that one panics too
+      let inner = guard(|| CoreDID::parse(s).is_ok());
+      let entry = if inner.is_err() { "CoreDID::parse" } else { "DIDJwk::parse" };
+      ctx.violation(&format!("{entry}|{}", pkey(&p)), &format!("input {s:?}: {}", p.msg), &case);
+      l.outcome("jwk: PANIC");
+      l.distinct(&(5u8, s));
+    }
+    Ok(Err(e)) => {
+      let e: &'static str = (&e).into();
+      l.outcome(format!("jwk: rejected {e}"));
+    }
+    Ok(Ok(j)) => {
+      l.distinct(&(5u8, s));
+      // the DID-level clauses are those of CoreDID::parse (DIDJwk::parse delegates to it)
+      let core: &CoreDID = j.as_ref();
+      if !judge_did(ctx, "CoreDID::parse", s, core, &case) {
+        // still exercise jwk(): it must not unwind on any accepted value
+        if let Err(p) = guard(|| j.jwk()) {
+          ctx.violation(&format!("DIDJwk::jwk|{}", pkey(&p)), &format!("input {s:?}: {}", p.msg), &case);
+        }
+        l.outcome("jwk: accepted, not a well-formed DID");
+        return;
+      }
+      if j.to_string() != s || String::from(j.clone()) != s || serde_json::to_value(&j).ok() != Some(json!(s)) {
+        ctx.violation("DIDJwk::parse|string-form-not-verbatim", &format!("input {s:?} -> {:?}", j.to_string()), &case);
+      }
+      if j.method() != "jwk" {
+        ctx.violation("DIDJwk::parse|accepted|method-not-jwk", &format!("input {s:?}"), &case);
+      }
+      let msid = s.strip_prefix("did:jwk:").unwrap_or("");
+      let want: Option<serde_json::Value> = b64url_decode(msid).and_then(|b| serde_json::from_slice(&b).ok());
+      let Some(serde_json::Value::Object(want)) = want else {
+        ctx.violation("DIDJwk::parse|accepted|method-id-not-base64url-json-object", &format!("input {s:?}"), &case);
+        l.outcome("jwk: accepted, id not b64url JSON");
+        return;
+      };
+      match guard(|| j.jwk()) {
+        Err(p) => ctx.violation(&format!("DIDJwk::jwk|{}", pkey(&p)), &format!("input {s:?}: {}", p.msg), &case),
+        Ok(jwk) => {
+          let got = serde_json::to_value(&jwk).unwrap_or(json!(null));
+          let ok = got.as_object().map(|g| !g.is_empty() && g.iter().all(|(k, v)| want.get(k) == Some(v))).unwrap_or(false);
+          if !ok {
+            ctx.violation("DIDJwk::jwk|differs-from-encoded-json", &format!("input {s:?}: jwk() = {got}, id encodes {}", serde_json::Value::Object(want.clone())), &case);
+          }
+        }
+      }
+      l.outcome("jwk: accepted, jwk() returned the encoded key");
+    }
+  }
+}
+
+fn eval(ctx: &Ctx, case: &Case) {
+  let mut l = Local::default();
+  eval_local(ctx, case, &mut l);
+  l.merge(ctx);
+}
+
+fn eval_local(ctx: &Ctx, case: &Case, l: &mut Local) {
+  match case {
+    Case::Parse { s } => eval_parse(ctx, s, l),
+    Case::Op { base, op, arg } => eval_op(ctx, base, op, arg.as_deref(), l),
+    Case::Jwk { s } => eval_jwk(ctx, s, l),
+    Case::Pair { a, b } => {
+      if let (Ok(Ok(x)), Ok(Ok(y))) = (guard(|| DIDUrl::parse(a)), guard(|| DIDUrl::parse(b))) {
+        eval_pair(ctx, &x, &y, || case.clone(), l);
+      } else {
+        l.outcome("pair: member rejected by parse (not judged)");
+      }
+    }
+    Case::Triple { a, b, c } => {
+      if let (Ok(Ok(x)), Ok(Ok(y)), Ok(Ok(z))) = (guard(|| DIDUrl::parse(a)), guard(|| DIDUrl::parse(b)), guard(|| DIDUrl::parse(c))) {
+        l.evals += 1;
+        let (xy, yz, xz) = (x.cmp(&y), y.cmp(&z), x.cmp(&z));
+        if !transitive(xy, yz, xz) {
+          ctx.violation("DIDUrl::cmp|not-transitive", &format!("{x} {xy:?} {y} {yz:?} {z} but {x} {xz:?} {z}"), case);
+        }
+        l.outcome("triple");
+      } else {
+        l.outcome("triple: member rejected by parse (not judged)");
+      }
+    }
+  }
+}
+
+fn transitive(xy: Ordering, yz: Ordering, xz: Ordering) -> bool {
+  use Ordering::*;
+  match (xy, yz) {
+    (Less, Less) | (Less, Equal) | (Equal, Less) => xz == Less,
+    (Greater, Greater) | (Greater, Equal) | (Equal, Greater) => xz == Greater,
+    (Equal, Equal) => xz == Equal,
+    _ => true,
+  }
+}
+
+// ------------------------------------------------------------------------------------------------ enumeration
+
+const SIGMA: [&str; 16] = ["a", "Z", "1", "F", ":", ".", "%", "/", "?", "#", "+", "{", " ", "\n", "é", "~"];
+/// Wider alphabet (shallower tree): more idchars/sub-delims, more control and non-ASCII characters, and
+/// whole / truncated percent triplets as single symbols.
+const SIGMA_WIDE: [&str; 32] = [
+  "a", "Z", "1", "F", ":", ".", "%", "/", "?", "#", "+", "{", " ", "\n", "é", "~", "A", "f", "0", "-", "_", "@", "!", "=", "&", "\t", "\u{0}", "\u{7f}", "\u{a0}", "%41", "%4", "%e2%82%AC",
+];
+
+/// Number of strings over an alphabet of `a` symbols of length ≤ n.
+fn tree_size(a: usize, n: u32) -> u64 {
+  (0..=n).map(|k| (a as u64).pow(k)).sum()
+}
+/// The i-th string (length-lexicographic) over `sigma`, appended to `out`.
+fn tree_string(sigma: &[&str], mut i: u64, out: &mut String) {
+  let a = sigma.len() as u64;
+  let mut k = 0u32;
+  while i >= a.pow(k) {
+    i -= a.pow(k);
+    k += 1;
+  }
+  for pos in (0..k).rev() {
+    out.push_str(sigma[((i / a.pow(pos)) % a) as usize]);
+  }
+}
+
+fn run_tree(ctx: &Ctx, part: &str, sigma: &'static [&'static str], heads: &[&str], n: u32) {
+  let size = tree_size(sigma.len(), n);
+  let total = size * heads.len() as u64;
+  (0..total)
+    .into_par_iter()
+    .fold(Local::default, |mut l, idx| {
+      let head = heads[(idx / size) as usize];
+      let mut s = String::with_capacity(head.len() + 2 * n as usize);
+      s.push_str(head);
+      tree_string(sigma, idx % size, &mut s);
+      eval_parse(ctx, &s, &mut l);
+      l
+    })
+    .for_each(|l| l.merge(ctx));
+  for idx in [0, total / 3, total / 2, total - 1] {
+    let mut s = heads[(idx / size) as usize].to_owned();
+    tree_string(sigma, idx % size, &mut s);
+    ctx.sample(part, &Case::Parse { s });
+  }
+  // prefix tree: one node per string, one edge per non-root string
+  ctx.add_states(total);
+  ctx.add_transitions(total);
+  ctx.add_traces(total);
+  ctx.part(part, json!({"engine": "E1 full product over the prefix tree", "alphabet_symbols": sigma.len(), "heads": heads, "max_suffix_symbols": n, "strings": total}));
+}
+
+fn run_list(ctx: &Ctx, part: &str, cases: &[Case]) {
+  cases
+    .par_iter()
+    .fold(Local::default, |mut l, c| {
+      eval_local(ctx, c, &mut l);
+      l
+    })
+    .for_each(|l| l.merge(ctx));
+  for i in [0, cases.len() / 3, cases.len() / 2, cases.len() - 1] {
+    ctx.sample(part, &cases[i]);
+  }
+  ctx.add_states(cases.len() as u64);
+  ctx.add_transitions(cases.len() as u64);
+  ctx.add_traces(cases.len() as u64);
+  ctx.part(part, json!({"engine": "E1 full product", "cases": cases.len()}));
+}
+
+fn all_strings(n: u32) -> Vec<String> {
+  (0..tree_size(SIGMA.len(), n))
+    .map(|i| {
+      let mut s = String::new();
+      tree_string(&SIGMA, i, &mut s);
+      s
+    })
+    .collect()
+}
+
+const JWK_DOCS: [&str; 9] = [
+  r#"{"kty":"OKP","crv":"Ed25519","x":"11qYAYKxCrfVS_7TyWQHOg7hcvPapiMlrwIaaPcHURo"}"#,
+  r#"{"crv":"P-256","kty":"EC","x":"acbIQiuMs3i8_uszEjJ2tpTtRM4EU3yz91PH6CdH2V0","y":"_KcyLj9vWMptnmKtm46GqDz8wf74I5LKgrl2GzH3nSE"}"#,
+  r#"{"kty":"OKP","crv":"X25519","use":"enc","x":"3p7bfXt9wbTTW2HC7OQ1Nz-DQ8hbeGdNrfx-FG-IK08"}"#,
+  r#"{"kty":"OKP"}"#,
+  r#"{"kty":"oct","k":"AAAA"}"#,
+  r#"{}"#,
+  r#"[]"#,
+  r#""x""#,
+  r#"{"kty":"OKP","crv":"Ed25519","x":"11qYAYKxCrfVS_7TyWQHOg7hcvPapiMlrwIaaPcHURo","d":"nWGxne_9WmC6hEr0kuwsxERJxWl7MmkZcDusAxyuf2A"}"#,
+];
+
+fn generate(ctx: &Ctx) {
+  ctx.rule("every string of the stated grids is executed on all entry points; distinct_nontrivial = distinct inputs that the reference grammar accepts or that at least one entry point accepts/panics on (trivial = grammar-invalid and rejected everywhere), plus distinct (base, op, argument) with an accepted op, plus distinct pool pairs");
+  ctx.assume("serde_json and std string handling are trusted; the reference recogniser is written from did-core §3.1/§3.2 and RFC 3986 and is the trusted base of this check");
+  ctx.assume("liveness (well-formed input must be accepted) is recorded in the histogram only; the statement is judged in the safety direction");
+  let n = ctx.by_tier(5u32, 6u32);
+  // (a) main prefix tree
+  run_tree(ctx, "tree did:m:", &SIGMA, &["did:m:"], n);
+  let nw = ctx.by_tier(3u32, 5u32);
+  run_tree(ctx, "tree did:m: (wide alphabet)", &SIGMA_WIDE, &["did:m:"], nw);
+  // (b) leading whitespace / control / non-ASCII space, and perturbed heads
+  let lead: Vec<String> = [" ", "\n", "\t", "\r", "\u{0}", "\u{1f}", "\u{7f}", "\u{a0}", "\u{feff}", "  ", "\r\n", " \n\t "].iter().map(|w| format!("{w}did:m:")).collect();
+  let lead_ref: Vec<&str> = lead.iter().map(|s| s.as_str()).collect();
+  run_tree(ctx, "tree behind leading whitespace/control", &SIGMA, &lead_ref, n - 2);
+  let heads = [
+    "", "d", "did", "did:", "did:m", "did::", "DID:m:", "Did:m:", "did:M:", "did:mM:", "did:m1:", "did:1:", "did:m-:", "did:m.:", "did:é:", "did:m%41:", "did :m:", "did:m :", "did: m:", "d1d:m:", "dad:m:", "did;m:", "did:m;",
+    "did:m::", "did:m:a:", "did:m:%41", "did:m:%4", "did:m:%", "did:m:a/", "did:m:a?", "did:m:a#", "did:m:a/p?q#", "did:m:a%41/", "did:m:a?q%41", "urn:m:", "did:did:m:",
+  ];
+  run_tree(ctx, "tree behind perturbed scheme/method/prefix heads", &SIGMA, &heads, n - 2);
+  // (c) structured long identifiers × suffix table
+  let ids = [
+    "did:example:123456789abcdefghi",
+    "did:key:z6MkhaXgBZDvotDkL5257faiztiGiC2QtKLGpbnnEGta2doK",
+    "did:web:example.com%3A3000:user:alice",
+    "did:web:w3c-ccg.github.io",
+    "did:iota:0xf29dd16310c2100fd1bf568b345fb1cc14d71caa3bd9b5ad735d2bd6d455ca3b",
+    "did:iota:smr:0xf29dd16310c2100fd1bf568b345fb1cc14d71caa3bd9b5ad735d2bd6d455ca3b",
+    "did:example:a:b::c",
+    "did:example::a",
+    "did:example:%E2%82%AC",
+    "did:example:a%2",
+    "did:0:0",
+    "did:abcdefghijklmnopqrstuvwxyz0123456789:x",
+  ];
+  let mut sfx: Vec<String> = all_strings(2);
+  sfx.extend(["/path", "?query", "#fragment", "/path?query#fragment", "?service=agent&relativeRef=/credentials#degree", "/a/./b/../c", "#%41", "?%41", "/%41", "%41", "%41#f", "%41/p", "%41?q", "/p%41?q", "?q%41#f", "#f%41", "?versionTime=2021-05-10T17:00:00Z", "/p#f#g", "?q?r", "#f?g/h", "//", "/?#", ";", "@", "/@:!$&'()*+,;="].iter().map(|s| s.to_string()));
+  let mut c: Vec<Case> = Vec::new();
+  for id in ids {
+    for s in &sfx {
+      c.push(Case::Parse { s: format!("{id}{s}") });
+    }
+  }
+  run_list(ctx, "structured identifiers x suffix table", &c);
+  // (d) op table
+  let k = ctx.by_tier(2u32, 3u32);
+  let args = all_strings(k);
+  let url_bases = ["did:a:1", "did:a:1/p", "did:a:1?q", "did:a:1#f", "did:a:1/p?q#f", "did:a:b:c/p/r?q=1&s#f", "did:a:%41a", "did:a:1/%41b?%41b#%41b", "did:a:1/"];
+  let mut ops: Vec<Case> = Vec::new();
+  for base in url_bases {
+    for op in [Op::Join, Op::SetPath, Op::SetQuery, Op::SetFragment] {
+      if op != Op::Join {
+        ops.push(Case::Op { base: base.into(), op: op.clone(), arg: None });
+      }
+      for pre in ["", "/", "?", "#"] {
+        for a in &args {
+          ops.push(Case::Op { base: base.into(), op: op.clone(), arg: Some(format!("{pre}{a}")) });
+        }
+      }
+      for a in ["/p?q#f", "/%41", "?%41", "#%41", "/%41?q", "?%41#f", "/p%4", "/..", "/./x", "/a/../b", "?a=b&c=d", "#f#g", "/p q", "?q#", "/p?", "?", "#", "/"] {
+        ops.push(Case::Op { base: base.into(), op: op.clone(), arg: Some(a.into()) });
+      }
+    }
+  }
+  let did_args = all_strings(k + 1);
+  for base in ["did:a:1", "did:a:b:c", "did:a:%41a"] {
+    for op in [Op::SetMethodName, Op::SetMethodId] {
+      for a in &did_args {
+        ops.push(Case::Op { base: base.into(), op: op.clone(), arg: Some(a.clone()) });
+      }
+      for a in ["example", "0xf29dd16310c2100fd1bf568b345fb1cc14d71caa3bd9b5ad735d2bd6d455ca3b", "a%41b", "a%4", "%41%41", "a:b:c", "::", "a b", "A", "é"] {
+        ops.push(Case::Op { base: base.into(), op: op.clone(), arg: Some(a.into()) });
+      }
+    }
+  }
+  run_list(ctx, "op x segment table", &ops);
+  // (e) Eq / Ord / Hash on a pool of accepted, well-formed DID URLs
+  let dids: &[&str] = ctx.by_tier(&["did:a:1", "did:a:2", "did:b:1", "did:a:1:2"][..], &["did:a:1", "did:a:2", "did:b:1", "did:a:1:2", "did:a:A", "did:a:%41a", "did:ab:1", "did:a:1.2"][..]);
+  let paths = ["", "/", "/a", "/b", "/a/b"];
+  let queries: &[&str] = ctx.by_tier(&["", "?a", "?b"][..], &["", "?a", "?b", "?a=1", "?/"][..]);
+  let frags = ["", "#a", "#b"];
+  let mut pool_s: Vec<String> = Vec::new();
+  for d in dids {
+    for p in paths {
+      for q in queries {
+        for f in frags {
+          pool_s.push(format!("{d}{p}{q}{f}"));
+        }
+      }
+    }
+  }
+  // the same values reached through setters / join (the internal representation may differ from a parsed one)
+  let mut pool: Vec<(String, DIDUrl)> = Vec::new();
+  for s in &pool_s {
+    if classify_url(s).is_err() {
+      continue;
+    }
+    if let Ok(Ok(u)) = guard(|| DIDUrl::parse(s)) {
+      if u.to_string() == *s {
+        pool.push((s.clone(), u));
+      }
+    }
+  }
+  ctx.require(pool.len() >= 100, &format!("comparison pool too small: {}", pool.len()));
+  let np = pool.len();
+  (0..np * np)
+    .into_par_iter()
+    .fold(Local::default, |mut l, ij| {
+      let (i, j) = (ij / np, ij % np);
+      eval_pair(ctx, &pool[i].1, &pool[j].1, || Case::Pair { a: pool[i].0.clone(), b: pool[j].0.clone() }, &mut l);
+      // a value built with setters from the bare DID compares like the parsed one
+      if i == j {
+        let built = guard(|| {
+          let p = classify_url(&pool[i].0).expect("pool is well-formed");
+          let mut u = DIDUrl::parse(format!("did:{}:{}", p.method, p.msid)).expect("bare did");
+          u.set_path(Some(p.path)).expect("path");
+          u.set_query(p.query).expect("query");
+          u.set_fragment(p.fragment).expect("fragment");
+          u
+        });
+        match built {
+          Ok(u) => {
+            if u != pool[i].1 || u.cmp(&pool[i].1) != Ordering::Equal || hash_of(&u) != hash_of(&pool[i].1) || u.to_string() != pool[i].0 {
+              ctx.violation("DIDUrl::set_*|built-value-differs-from-parsed-value", &format!("{:?}", pool[i].0), &Case::Pair { a: pool[i].0.clone(), b: pool[i].0.clone() });
+            }
+          }
+          Err(p) => ctx.violation(&format!("DIDUrl::set_*|well-formed-component-refused|{}", pkey(&p)), &format!("{:?}: {}", pool[i].0, p.msg), &Case::Pair { a: pool[i].0.clone(), b: pool[i].0.clone() }),
+        }
+      }
+      l.distinct(&(3u8, i, j));
+      l
+    })
+    .for_each(|l| l.merge(ctx));
+  ctx.sample("pairs", &Case::Pair { a: pool[0].0.clone(), b: pool[np - 1].0.clone() });
+  ctx.add_states(np as u64);
+  ctx.add_transitions((np * np) as u64);
+  ctx.add_traces((np * np) as u64);
+  ctx.part("Eq/Ord/Hash all pairs", json!({"pool": np, "pairs": np * np}));
+  // all triples: transitivity of cmp
+  let cmp: Vec<Vec<Ordering>> = pool.par_iter().map(|(_, a)| pool.iter().map(|(_, b)| a.cmp(b)).collect()).collect();
+  let bad: Vec<(usize, usize, usize)> = (0..np)
+    .into_par_iter()
+    .flat_map_iter(|i| {
+      let cmp = &cmp;
+      (0..np).flat_map(move |j| (0..np).filter(move |&k| !transitive(cmp[i][j], cmp[j][k], cmp[i][k])).map(move |k| (i, j, k)))
+    })
+    .collect();
+  for (i, j, k) in bad.iter().take(16) {
+    eval(ctx, &Case::Triple { a: pool[*i].0.clone(), b: pool[*j].0.clone(), c: pool[*k].0.clone() });
+  }
+  eval(ctx, &Case::Triple { a: pool[0].0.clone(), b: pool[1].0.clone(), c: pool[2].0.clone() });
+  ctx.sample("triples", &Case::Triple { a: pool[0].0.clone(), b: pool[1].0.clone(), c: pool[2].0.clone() });
+  ctx.add_evals((np * np * np) as u64);
+  ctx.add_transitions((np * np * np) as u64);
+  ctx.add_traces((np * np) as u64);
+  ctx.outcome_n("triple", (np * np * np - bad.len()) as u64);
+  ctx.part("cmp transitivity all triples (over the matrix of real cmp results)", json!({"pool": np, "triples": np * np * np, "intransitive": bad.len()}));
+  // (f) did:jwk
+  let repl = ["A", "-", "_", "=", "%", ".", ":", "/", "#", "?", " ", "+", "é", ""];
+  let jsfx = ["", "#0", "/p", "?q", "#", "?", " ", "\n", "%41", "%", ":", ".", "=", "=="];
+  let mut jc: Vec<Case> = Vec::new();
+  for doc in JWK_DOCS {
+    let id = b64url_encode(doc.as_bytes());
+    for head in ["did:jwk:", "did:jwk::", "did:JWK:", "did:jwt:", "did:key:", " did:jwk:", "did:jwk"] {
+      for s in jsfx {
+        jc.push(Case::Jwk { s: format!("{head}{id}{s}") });
+      }
+    }
+    let full = ctx.thorough() || doc.len() < 90;
+    let step = if full { 1 } else { 7 };
+    for pos in (0..id.len()).step_by(step) {
+      for r in repl {
+        jc.push(Case::Jwk { s: format!("did:jwk:{}{r}{}", &id[..pos], &id[pos + 1..]) });
+      }
+      jc.push(Case::Jwk { s: format!("did:jwk:{}", &id[..pos]) });
+    }
+    if !full {
+      ctx.bound("jwk_substitution_positions_quick", "every 7th position for ids of 90+ JSON bytes (every position in thorough)");
+    }
+  }
+  run_list(ctx, "did:jwk ids x substitutions/truncations/suffixes", &jc);
+  ctx.bound("alphabet", SIGMA);
+  ctx.bound("wide_alphabet", SIGMA_WIDE);
+  ctx.bound("wide_tree_max_suffix_symbols", nw);
+  ctx.bound("tree_max_suffix_symbols", n);
+  ctx.bound("op_argument_max_symbols", k);
+  ctx.bound("method_setter_argument_max_symbols", k + 1);
+  ctx.bound("comparison_pool", np);
+}
+
+fn main() {
+  vx::run_main::<Case, _, _>("C10", Level::ModelChecking, generate, eval)
+}
